@@ -194,6 +194,22 @@ func (p *Prog) lin(v ssa.Value, d int) Lin {
 	case *ssa.ChangeType:
 		return p.lin(x.X, d+1)
 	case *ssa.Call:
+		if b, ok := x.Call.Value.(*ssa.Builtin); ok && b.Name() == "len" && len(x.Call.Args) == 1 {
+			// len(s[lo:hi]) = hi - lo ; len(s[lo:]) = len(s) - lo
+			if sl, isS := x.Call.Args[0].(*ssa.Slice); isS {
+				if _, isSliceT := sl.X.Type().Underlying().(*types.Slice); isSliceT {
+					lo := linConst(0)
+					if sl.Low != nil {
+						lo = p.lin(sl.Low, d+1)
+					}
+					if sl.High != nil {
+						return p.lin(sl.High, d+1).Minus(lo)
+					}
+					inner := p.Eval(p.linFrame, sl.X)
+					return LinAtom("len(" + p.PathAtom(inner) + ")").Minus(lo)
+				}
+			}
+		}
 		if b, ok := x.Call.Value.(*ssa.Builtin); ok && (b.Name() == "len" || b.Name() == "cap") && len(x.Call.Args) == 1 {
 			a := p.Eval(p.linFrame, x.Call.Args[0])
 			return LinAtom(b.Name() + "(" + p.PathAtom(a) + ")")
